@@ -246,6 +246,7 @@ func c07(r *lp.Run) {
 	c07Recursion(r, rng)
 	c07Expand(r, r.Rng.Fork(701))
 	c07CompositionDAGs(r, r.Rng.Fork(702))
+	c07Hand(r)
 	refVariants(r, rng, "C07", r.N(150, 3000), "components moved to an external file", "components moved to an external file, root has decoys of the same names", "components moved to a document addressed by URL (the root has a URL of its own and decoys of the same names)", "components renamed (names made of the prefix's characters, dotted and prefixed sibling names)")
 }
 
